@@ -364,7 +364,7 @@ func cfgPools(m map[string]string, npools int) ([]*poolRun, engine.Config, error
 				return nil, fmt.Errorf("gun factory made a %T", g)
 			}
 			gg.r, gg.ids = rec, ids
-			return gg, nil
+			return gg.made(), nil
 		}
 		past := atoi(get("past"))
 		late := 3 * time.Second
